@@ -17,7 +17,8 @@ func SetLimit(n int) Rule {
 		if err != nil {
 			return err
 		}
-		sel.Limit = &n
+		v := n // (every statement gets its own value: the trees do not share the rule's variable)
+		sel.Limit = &v
 		return nil
 	})
 }
@@ -33,7 +34,8 @@ func SetOffset(n int) Rule {
 		if err != nil {
 			return err
 		}
-		sel.Offset = &n
+		v := n
+		sel.Offset = &v
 		return nil
 	})
 }
